@@ -158,6 +158,9 @@ def case_strategy(draw, thorough=False):
             t = draw(st.integers(0, 99))
             if mode == 'T':
                 if is_elif:
+                    # removing / splicing the ELSE IF conditional of a has_elseif chain fails (known finding
+                    # C14:else-if-branch-removed-from-has_elseif-conditional): excluded by construction
+                    case['excluded_elif_keys'] = case.get('excluded_elif_keys', 0) + 1
                     continue
                 if t < 20:
                     h = None
@@ -479,6 +482,9 @@ def check_case(case, ctx):
         classes.append('window=whole-branch-body')
 
     ctx.case(case, nontrivial, classes)
+    if case.get('excluded_elif_keys'):
+        ctx.exclude('ELSE IF conditional of a has_elseif chain drawn as mapping key (known: C14:else-if-branch-removed-from-has_elseif-conditional)',
+                    case['excluded_elif_keys'])
     if case.get('excluded_empty_branches'):
         ctx.exclude('SELECT CASE branch generated with an empty body (known: C14:emptied-branch-body-is-stripped:MultiConditional)',
                     case['excluded_empty_branches'])
@@ -589,7 +595,8 @@ def check_case(case, ctx):
                         for x in ((e['f'].get(sl) or []) if kind == 'F' else [y for bb in e['f'].get(sl) or [] for y in bb]))
             if opts.get('invalidate_source'):
                 if dirty and a['_src'] == 'VALID':
-                    ctx.fail(f'C14:{mode}:source-not-invalidated-above-replacement', case,
+                    scoped_sfx = ':in-place-updated-ScopedNode' if (e['k'] in ('Associate', 'TypeDef') and scoped_inplace) else ''
+                    ctx.fail(f'C14:{mode}:source-not-invalidated-above-replacement{scoped_sfx}', case,
                              f'{e["k"]} #{e["_o"]} contains a source-less replacement but keeps a VALID source')
                     break
             elif a['_src'] != 'VALID':
